@@ -330,5 +330,10 @@ func timeOfView(v string, adj bool) (time.Time, error) {
 // e.g. the view "string_201901" would return "201901".
 func viewTimePart(v string) string {
 	parts := strings.Split(v, "_")
+	if len(parts) < 2 {
+		// a view without a time suffix, e.g. "standard" (which happens to
+		// be as long as a YYYYMMDD suffix).
+		return ""
+	}
 	return parts[len(parts)-1]
 }
